@@ -22,6 +22,15 @@ def main(path):
     logger.remove()
     from vk import common
     r = json.load(open(path))
+    if r.get('concrete') == 'vk.validate':
+        from vk import validate
+        v = validate.run(only=r['scenario'])
+        hits = [a for a in v['alarms'] if a['rule'] == r['rule']]
+        if hits:
+            print(f"REPRODUCED property={r['property']} rule={r['rule']} in scenario {r['scenario']}: {hits[0]['msg']}")
+            return 1
+        print('NOT-REPRODUCED', v['failures'][:2])
+        return 0
     ok, detail = common.replay_script(r['harness'], r['params'], r['script'], r['rule'])
     print(json.dumps({'rule': r['rule'], 'harness': r['harness'], 'params': r['params'], 'script': r['script']}, default=str)[:4000])
     if ok:
